@@ -117,6 +117,7 @@ def rx(s):
 
 
 STAGES = [
+    ("ICancelGate", rx("if (IsCancelled(ctx)) { MakeEmpty(Error::@ERR@); return; }")),
     ("IComputeCounts", rx("const uint32_t numVert = meshGL.NumVert();")),
     ("IMergeLoop", rx("""if (!meshGL.mergeFromVert.empty()) { prop2vert.resize(numVert);
         std::iota(prop2vert.begin(), prop2vert.end(), 0);
@@ -161,7 +162,6 @@ STAGES = [
 ]
 
 NEUTRAL = [N(x) for x in [
-    "if (IsCancelled(ctx)) { MakeEmpty(Error::Cancelled); return; }",     # ctx == nullptr for the public constructors
     "const uint32_t numTri = meshGL.NumTri();",
     "std::vector<int> prop2vert;",
     "const auto numProp = meshGL.numProp - 3;",
@@ -197,6 +197,22 @@ NEUTRAL = [N(x) for x in [
 RUNG_RE = re.compile(r"^if \( (.*) \) \{ MakeEmpty \( Error :: ([A-Za-z]+) \) ; return ; \}$")
 
 
+def dedupe_keeps_tangents(repo):
+    """Does DedupeEdge (src/edge_op.cpp), which appends two faces to halfedge_, keep
+    halfedgeTangent_ as long as halfedge_?  Recognised form: after the last face is
+    pushed, `if (halfedgeTangent_.size() > 0) halfedgeTangent_.resize(halfedge_.size(), vec4(0.0));`"""
+    src = norm(strip_comments(open(os.path.join(repo, "src/edge_op.cpp")).read()))
+    m = re.search(r"void Manifold :: Impl :: DedupeEdge \( const int edge \) \{(.*?)\n?void Manifold :: Impl ::", src + " void Manifold :: Impl ::", flags=re.S)
+    if not m:
+        raise TranslateError("DedupeEdge not found in edge_op.cpp")
+    body = m.group(1)
+    pushes = [x.start() for x in re.finditer(r"halfedge_ \. push_back \(", body)]
+    if not pushes:
+        return True        # no faces are added any more
+    keep = re.search(r"if \( halfedgeTangent_ \. size \( \) > 0 \) halfedgeTangent_ \. resize \( halfedge_ \. size \( \) , vec4 \( 0\.0 \) \) ;", body)
+    return bool(keep and keep.start() > pushes[-1])
+
+
 def translate(repo):
     src = strip_comments(open(os.path.join(repo, "src/impl.h")).read())
     stmts = statements(ctor_body(src))
@@ -225,6 +241,12 @@ def translate(repo):
                 if g[1] not in ERRORS:
                     raise TranslateError("unknown error code " + g[1])
                 items.append("ITriLoop %s %s" % (CMP[g[0]], g[1]))
+            elif name == "ICancelGate":
+                if g[0] not in ERRORS:
+                    raise TranslateError("unknown error code " + g[0])
+                items.append("ICancelGate %s" % g[0])
+            elif name == "IPost":
+                items.append("IPost %s" % ("true" if dedupe_keeps_tangents(repo) else "false"))
             elif name == "ICreateHalfedges":
                 # must be followed by the IsManifold rung
                 nxt = stmts[k] if k < len(stmts) else ""
@@ -246,7 +268,7 @@ def translate(repo):
             items.append("IRung %s %s" % (RUNGS[cond], err))
             continue
         raise TranslateError("unrecognised statement in Impl(MeshGLP) constructor: `%s`" % s[:300])
-    for need in ("IComputeCounts", "IMergeLoop", "ICopyVerts", "ICopyTangents", "INormaliseRuns", "IRunLoop", "ITriLoop", "ICreateHalfedges", "IPost"):
+    for need in ("ICancelGate", "IComputeCounts", "IMergeLoop", "ICopyVerts", "ICopyTangents", "INormaliseRuns", "IRunLoop", "ITriLoop", "ICreateHalfedges", "IPost"):
         if sum(1 for it in items if it.split()[0] == need) != 1:
             raise TranslateError("statement kind %s occurs %d times (expected once)" % (need, sum(1 for it in items if it.split()[0] == need)))
     return items
